@@ -16,15 +16,21 @@
      C22_object_cache      ObjectCache + treehash on any arena (shared or not) denoting the tree;
      C22_interned          InternedTree::tree_hash = ObjectCache on the interned arena of the tree;
      C22_python            the Treehasher stack machine, with and without _cached_sha256_treehash;
-     C22_from_stream       tree_hash_from_stream on the classic serialization of the tree.
-   The three stack machines are shown to finish within (nodes + pairs of the tree) + 1 loop
-   iterations (fuel), and no panic site is reachable.
-   NOT proved: parse_triples' hash array (Model/Classic.v [parse_triples], compared with the
-   implementation and with the other hashers by the check; no theorem) — hence level "other".
+     C22_from_stream       tree_hash_from_stream on the classic serialization of the tree;
+     C22_parse_triples     parse_triples on the classic serialization of the tree (followed by
+                           anything): the hash array is the tree hash of every sub-tree in
+                           pre-order (one entry per node, entry 0 = the hash of the tree itself);
+                           C22_parse_triples_any_input: the same for every input parse_triples
+                           accepts, relative to the tree node_from_stream decodes from it.
+   The stack machines are shown to finish within their fuel ((nodes + pairs of the tree) + 1 loop
+   iterations; parse_triples: 4|bytes|+4), and no panic site is reachable.
+   Every implementation named in the statement has its theorem. The Python wheel's
+   sha256_treehash is the hand-modelled Treehasher (C22_python); that the wheel's source is that
+   machine is the correspondence run's part, as for every model here.
    get_args of op_sha256_tree is outside this file (operator argument handling, C25). *)
 From Clvm Require Import Model.TreeHashOp Model.Sha256 Model.Classic Gen.Tables
-  Proofs.TreeHashProofs Proofs.TableProofs Proofs.InternProofs Proofs.ClassicProofs.
-Local Open Scope N_scope.
+  Proofs.TreeHashProofs Proofs.TableProofs Proofs.InternProofs Proofs.ClassicProofs Proofs.ClassicTriples.
+Open Scope N_scope.
 
 Theorem C22_costed : forall (H : bytes -> bytes) (table : list bytes), table_ok H table ->
   forall new_cost_model t max,
@@ -60,6 +66,21 @@ Proof.
   rewrite (parse_ser t e rest Hwf Hs). reflexivity.
 Qed.
 
+(* the hashes returned by parse_triples: one per sub-tree, pre-order; index 0 is the whole tree *)
+Theorem C22_parse_triples : forall (H : bytes -> bytes) t e rest, wf_sexp t = true -> ser t = Some e ->
+  exists ts, parse_triples H (e ++ rest) = Ok (ts, map (treehash H) (subtrees t), rest) /\
+             length ts = n_nodes t.
+Proof. exact parse_triples_ser. Qed.
+
+Theorem C22_parse_triples_any_input : forall (H : bytes -> bytes) bs ts hs rest,
+  parse_triples H bs = Ok (ts, hs, rest) ->
+  exists t, node_from_stream bs = Ok (t, rest) /\ hs = map (treehash H) (subtrees t) /\
+            length ts = n_nodes t.
+Proof. exact parse_triples_hashes. Qed.
+
+Theorem C22_subtrees_root : forall t, exists r, subtrees t = t :: r.
+Proof. intros [b|l r]; eexists; reflexivity. Qed.
+
 (* non-vacuity: the hypotheses are met (table_ok by the real table and sha256; arenas that denote
    a tree: the interned one and the unshared one) *)
 Example C22_table_hypothesis : table_ok sha256 src_precomputed_hashes.
@@ -79,4 +100,7 @@ Print Assumptions C22_object_cache.
 Print Assumptions C22_interned.
 Print Assumptions C22_python.
 Print Assumptions C22_from_stream.
+Print Assumptions C22_parse_triples.
+Print Assumptions C22_parse_triples_any_input.
+Print Assumptions C22_subtrees_root.
 Print Assumptions C22_table_hypothesis.
